@@ -89,6 +89,37 @@ func (Trust) Run(c *orch.Case) *orch.Outcome {
 	}
 	so.SigAlg = idp.RSASigs[rng.Intn(4)]
 	so.Digest = idp.AllDigests[rng.Intn(4)]
+	// half of the alterations consist of nothing but an inserted comment, under a canonicalisation that keeps comments
+	// (they are then part of what was signed)
+	commentTamper := in.Tamper && (c.Seed/2)%2 == 1
+	if commentTamper {
+		so.C14N = []string{idp.C14NExcCom, idp.C14N11Com, idp.C14N10Com}[rng.Intn(3)]
+	}
+	alter := func(root *etree.Element, textTag string, attr [2]string) {
+		if commentTamper {
+			var target *etree.Element
+			for _, e := range root.FindElements("//Issuer") {
+				target = e
+			}
+			if target == nil {
+				target = root
+			}
+			target.InsertChildAt(0, etree.NewComment(" inserted after signing "))
+			return
+		}
+		if textTag != "" {
+			nids := root.FindElements("//" + textTag)
+			for i, e := range nids {
+				if in.Pad > 0 && i != len(nids)-1 {
+					continue // only the last assertion is tampered with
+				}
+				e.Child = nil
+				e.SetText("mallory@example.com")
+			}
+			return
+		}
+		root.CreateAttr(attr[0], attr[1])
+	}
 
 	var root *etree.Element
 	switch in.Kind {
@@ -116,14 +147,7 @@ func (Trust) Run(c *orch.Case) *orch.Outcome {
 			}
 		}
 		if in.Tamper {
-			nids := root.FindElements("//NameID")
-			for i, e := range nids {
-				if in.Pad > 0 && i != len(nids)-1 {
-					continue // only the last assertion is tampered with
-				}
-				e.Child = nil
-				e.SetText("mallory@example.com")
-			}
+			alter(root, "NameID", [2]string{})
 		}
 	case "logoutReq":
 		r := &idp.Response{Kind: "LogoutRequest", ID: "_lr-1", Version: idp.S("2.0"), IssueInstant: world.RFC(world.T0), Destination: idp.S(world.SLO),
@@ -134,10 +158,7 @@ func (Trust) Run(c *orch.Case) *orch.Outcome {
 			mustSign(root, so)
 		}
 		if in.Tamper {
-			for _, e := range root.FindElements("//NameID") {
-				e.Child = nil
-				e.SetText("mallory@example.com")
-			}
+			alter(root, "NameID", [2]string{})
 		}
 	case "logoutResp":
 		r := &idp.Response{Kind: "LogoutResponse", ID: "_lresp-1", Version: idp.S("2.0"), IssueInstant: world.RFC(world.T0), Destination: idp.S(world.SLO),
@@ -148,7 +169,7 @@ func (Trust) Run(c *orch.Case) *orch.Outcome {
 			mustSign(root, so)
 		}
 		if in.Tamper {
-			root.CreateAttr("InResponseTo", "_req-8")
+			alter(root, "", [2]string{"InResponseTo", "_req-8"})
 		}
 	}
 	doc := idp.Serialize(root, lay, rng)
